@@ -234,6 +234,27 @@ func genPolicy(c *Ctx) {
 			}
 		}
 	}
+	// == on maps: the same entries in every order (at two levels), one entry more or fewer, one value changed
+	{
+		maps := []datamodel.Node{
+			mkMap(ent{"id", basicnode.NewInt(7)}, ent{"n", basicnode.NewInt(2)}),
+			mkMap(ent{"n", basicnode.NewInt(2)}, ent{"id", basicnode.NewInt(7)}),
+			mkMap(ent{"n", basicnode.NewInt(3)}, ent{"id", basicnode.NewInt(7)}),
+			mkMap(ent{"id", basicnode.NewInt(7)}),
+			mkMap(ent{"id", basicnode.NewInt(7)}, ent{"n", basicnode.NewInt(2)}, ent{"x", datamodel.Null}),
+			mkMap(ent{"b", mkMap(ent{"zz", basicnode.NewInt(1)}, ent{"y", basicnode.NewInt(2)})}, ent{"aa", basicnode.NewInt(1)}),
+			mkMap(ent{"aa", basicnode.NewInt(1)}, ent{"b", mkMap(ent{"y", basicnode.NewInt(2)}, ent{"zz", basicnode.NewInt(1)})}),
+			mkMap(), mkList(mkMap(ent{"n", basicnode.NewInt(2)}, ent{"id", basicnode.NewInt(7)})), mkList(mkMap(ent{"id", basicnode.NewInt(7)}, ent{"n", basicnode.NewInt(2)})),
+		}
+		for _, a := range maps {
+			for _, b := range maps {
+				d := mkMap(ent{"v", b}, ent{"l", mkList(b)})
+				run1("pol/map-order", []pstmt{{kind: "==", sel: ".v", val: a}}, d)
+				run1("pol/map-order", []pstmt{{kind: "not", subs: []pstmt{{kind: "==", sel: ".v", val: a}}}}, d)
+				run1("pol/map-order", []pstmt{{kind: "any", sel: ".l", subs: []pstmt{{kind: "==", sel: ".", val: a}}}}, d)
+			}
+		}
+	}
 	// like on text that is not UTF-8 / holds U+FFFD, and on values that are not strings behind optional selectors
 	{
 		bs := []string{"caf\xe9", "caf\xe8 au lait", "caf\ufffd", "\xff", "\xfe", "é", "\ufffd"}
